@@ -36,7 +36,7 @@ K = {
     },
     "C17": {
         "prefix": r"c17_",
-        "thorough_only": r"c17_(le_|ge_|gt_entry|gt_resume1|gt_resume2|lt_resume3|eq_resume3|concat_i(20|30|01|02|11|32|13)|.*_odest|lt_entry_ooo)",
+        "thorough_only": r"c17_(le_|ge_|gt_entry|gt_resume1|gt_resume2|lt_resume3|eq_resume3|concat_(i(20|30|01|02|11|32|13)|entry_(03|30))|.*_odest|lt_entry_ooo)",
         "jobs": 8, "quick_timeout": 600, "thorough_timeout": 1500,
         "functions": ["vm::VmGreenThread::step (EqualString LessThanString LessThanOrEqualString GreaterThanString GreaterThanOrEqualString "
                       "ConcatStrings)", "vm::StringObject::new, Value::view_string"],
